@@ -146,6 +146,8 @@ let dispatch name =
   | "obj_raise_order" -> let tol = rq () in let o = robj () in let rs = rnatlist () in pres pobj (Exec.q_obj_raise_order tol o rs)
   | "obj_lower_order" -> let tol = rq () in let o = robj () in let rs = rnatlist () in pres pobj (Exec.q_obj_lower_order tol o rs)
   | "solve" -> let a = rlist rqlist in let b = rlist rqlist in pres (plist pqlist) (Exec.q_solve a b)
+  | "obj_split" -> let tol = rq () in let o = robj () in let d = rnat () in let ks = rqlist () in
+    pres (plist pobj) (Exec.q_obj_split tol o d ks)
   | _ -> out ("UNKNOWN " ^ name)
 
 let () =
